@@ -262,7 +262,7 @@ def correspond(ctx):
         gc.collect()
         return len(rec), flips
 
-    nhist = ctx.scale(10, 150)
+    nhist = ctx.scale(8, 150)
     for hi in range(nhist):
         solver_name = "yices" if hi % 2 == 0 else "z3"
         retain = hi % 3 != 2
@@ -388,8 +388,8 @@ def correspond(ctx):
         return nq, len(breaches), len(flips)
 
     tot = [0, 0, 0]
-    for hi in range(ctx.scale(5, 40)):
-        r = path_history(f"branch{hi}", "yices" if hi % 3 else "z3", steps=ctx.scale(40, 80))
+    for hi in range(ctx.scale(4, 40)):
+        r = path_history(f"branch{hi}", "yices" if hi % 3 else "z3", steps=ctx.scale(30, 80))
         tot = [a + b for a, b in zip(tot, r)]
 
     # the same through the real SEVM: programs with several JUMPIs on symbolic calldata, paths taken lazily from the DFS
